@@ -24,8 +24,11 @@ def molecule(name):
            "H4+": ([("H", (0, 0, 0)), ("H", (0, 0, 1.0)), ("H", (0, 0, 2.1)), ("H", (0, 0, 3.3))], 1, 1, False),
            "H4+u": ([("H", (0, 0, 0)), ("H", (0, 0, 1.0)), ("H", (0, 0, 2.1)), ("H", (0, 0, 3.3))], 1, 1, True),
            "H4t": ([("H", (0, 0, 0)), ("H", (0, 0, 1.0)), ("H", (0, 0, 2.1)), ("H", (0, 0, 3.3))], 0, 2, False),
-           "H2u": ([("H", (0, 0, 0)), ("H", (0, 0, 0.7414))], 0, 0, True)}[name]
-    m = SecondQuantizedMolecule(geo[0], q=geo[1], spin=geo[2], basis="sto-3g", uhf=geo[3])
+           "H2u": ([("H", (0, 0, 0)), ("H", (0, 0, 0.7414))], 0, 0, True),
+           # an ODD number of frozen occupied orbitals: the active electron number (and its parity per spin) differs from the molecule's
+           "H4f0": ([("H", (0, 0, 0)), ("H", (0, 0, 1.0)), ("H", (0, 0, 2.1)), ("H", (0, 0, 3.3))], 0, 0, False, [0]),
+           "H4f03": ([("H", (0, 0, 0)), ("H", (0, 0, 1.0)), ("H", (0, 0, 2.1)), ("H", (0, 0, 3.3))], 0, 0, False, [0, 3])}[name]
+    m = SecondQuantizedMolecule(geo[0], q=geo[1], spin=geo[2], basis="sto-3g", uhf=geo[3], **({"frozen_orbitals": geo[4]} if len(geo) > 4 else {}))
     _MOLS[name] = m
     return m
 
